@@ -243,6 +243,7 @@ theorem step_inv {q q' : Quals} {op : QOp} {o : QOut} (hq : QInv q) (h : q.step 
   | clear => simp [Quals.step] at h; obtain ⟨_, rfl⟩ := h; exact QInv_nil
   | len => simp [Quals.step] at h; obtain ⟨_, rfl⟩ := h; exact hq
   | eqFresh => simp [Quals.step] at h; obtain ⟨_, rfl⟩ := h; exact hq
+  | snapshot => simp [Quals.step] at h; obtain ⟨_, rfl⟩ := h; exact hq
   | iter => simp [Quals.step] at h; obtain ⟨_, rfl⟩ := h; exact hq
   | riter => simp [Quals.step] at h; obtain ⟨_, rfl⟩ := h; exact hq
   | ends => simp [Quals.step] at h; obtain ⟨_, rfl⟩ := h; exact hq
@@ -456,6 +457,7 @@ theorem step_ok (q : Quals) (op : QOp) (h : docPanic q op = false) : ∃ r, q.st
   | clear => exact ⟨_, rfl⟩
   | len => exact ⟨_, rfl⟩
   | eqFresh => exact ⟨_, rfl⟩
+  | snapshot => exact ⟨_, rfl⟩
   | iter => exact ⟨_, rfl⟩
   | riter => exact ⟨_, rfl⟩
   | ends => exact ⟨_, rfl⟩
